@@ -97,6 +97,10 @@ def run(ctx):
     # steps of unequal length (daily steps across a clock change: 23 h / 25 h days) with a maximum holding duration
     specs += gen.gen_many(ctx.seed, n // 4, dict(CFG, freqs=['d'], tzs=['CET'], p_dst=1.0, T=(4, 8), p_max_store=0.8, p_coarse=0.0, p_blocks=0.0,
                                                  p_unaligned_end=0.0, kinds={'Storage': 1}, n_assets=(1, 2)), 'c05dst_')
+    # a storage on a weekly frequency of its own on a daily grid across a clock change: minor steps of unequal length inside one coarse step
+    wk = [{'start': s0, 'end': e0, 'freq': 'd', 'unit': u, 'tz': 'CET'} for s0, e0 in (('2021-03-22 00:00', '2021-04-05 00:00'), ('2021-10-25 00:00', '2021-11-08 00:00')) for u in ('h', 'd')]
+    specs += gen.gen_many(ctx.seed, 4 if ctx.tier == 'quick' else 24, dict(CFG, grids=wk, p_coarse=1.0, coarse_freqs=['7d'], p_window=0.0, p_max_store=0.0, p_no_simult=0.0, p_blocks=0.0,
+                                                                           kinds={'Storage': 1}, n_assets=(1, 2)), 'c05wk_')
     specs = ctx.specs(specs)
     res = C.run_impl('portfolio', specs)
     parts = C.run_impl('assets', specs)
